@@ -194,15 +194,16 @@ class InventoryFileReader:
 
     def readline(self) -> str:
         pos = self.buffer.find(b"\n")
+        while pos == -1 and not self.eof:
+            # read until a full line is buffered, however small the reads are
+            self.read_buffer()
+            pos = self.buffer.find(b"\n")
         if pos != -1:
             line = self.buffer[:pos].decode()
             self.buffer = self.buffer[pos + 1 :]
-        elif self.eof:
+        else:
             line = self.buffer.decode()
             self.buffer = b""
-        else:
-            self.read_buffer()
-            line = self.readline()
 
         return line
 
